@@ -11,7 +11,11 @@ import time
 from . import pool, tlc
 
 ROOT = os.path.dirname(os.path.dirname(os.path.abspath(__file__)))
-OUT = os.path.join(ROOT, "out")
+# a run against a scratch copy of the repository (VERIF_REPO, used for seeded changes) keeps its output and evidence apart:
+# what is committed under evidence/ always comes from /repo itself
+ALT = os.path.realpath(os.environ.get("VERIF_REPO", "/repo")) != "/repo"
+OUT = os.path.join(ROOT, "out_alt" if ALT else "out")
+EVID = os.path.join(OUT, "evidence") if ALT else os.path.join(ROOT, "evidence")
 FINDINGS = os.path.join(ROOT, "known_findings.json")
 
 
@@ -218,8 +222,8 @@ class Check:
         cov.update(self.extra_cov)
         ev = {"property_id": self.pid, "tier": self.tier, "seed": self.seed, "level": level, "coverage": cov,
               "assumptions": text_assumptions, "wall_s": round(wall, 1), "violations": len(self.violations)}
-        os.makedirs(os.path.join(ROOT, "evidence"), exist_ok=True)
-        with open(os.path.join(ROOT, "evidence", "%s.json" % self.pid), "w") as f:
+        os.makedirs(EVID, exist_ok=True)
+        with open(os.path.join(EVID, "%s.json" % self.pid), "w") as f:
             json.dump(ev, f, indent=1, default=lambda o: sorted(o) if isinstance(o, set) else str(o))
         if self.machinery_errors:
             for m in self.machinery_errors[:10]:
